@@ -18,6 +18,7 @@ RULE = (
     "payload family x every scripted mask key x {no, populated} initial request is run through "
     "HttpDataTransform.transform/recover and through the independent reference peer (vmc/ref/malleable.py) in both "
     "directions. non-trivial = the payload is non-empty or the program has at least one encoder"
+    '. Added: the three construction forms (explicit BUILD, build= keyword in transform / recover order), per-block payloads incl. empty / unset, initial requests with a body. '
 )
 ASSUMPTIONS = [
     "base64url output is accepted with or without '=' padding",
